@@ -117,6 +117,31 @@ Proof.
 Qed.
 Print Assumptions C04_de_morgan_edges.
 
+(** idempotence as an edge identity: the union (intersection) of a stored
+    boolean-valued edge with itself is that very edge, not merely an
+    equivalent diagram *)
+Theorem C04_idempotent_edges :
+  forall (sz : nat -> nat), (forall k, 1 <= sz k) ->
+  forall (rr : rule), paired sz rr -> (is_ir rr = true -> forall k, 2 <= sz k) ->
+  forall (o : binop), o = OUnion \/ o = OInter ->
+  forall L a, is_ir rr && Nat.odd L = false ->
+  reducedb sz rr L None a = true ->
+  (forall x, valid sz x -> eval rr L a x = 0%Z \/ eval rr L a x = 1%Z) ->
+  apply2 sz (scalar2 o 1 1) rr rr rr L 0 a a = a.
+Proof.
+  intros sz H1 rr Hp H2 o Ho L a Hc Hr Hb.
+  assert (Hcx : forall x, cx rr L 0 x) by (intros x E'; rewrite Hc in E'; discriminate).
+  assert (Hw : wf L a) by (eapply (reduced_wf sz rr L None); exact Hr).
+  apply (canon sz rr H1 Hp H2 L None _ _ I).
+  - eapply reduced_from_irrel; [exact Hc|]. now apply apply2_reduced.
+  - exact Hr.
+  - intros x Hx _.
+    etransitivity; [apply (apply2_eval sz rr rr rr); auto|].
+    change (evalL (is_ir rr) L) with (eval rr L).
+    destruct (Hb x Hx) as [E|E]; rewrite E; destruct Ho; subst o; reflexivity.
+Qed.
+Print Assumptions C04_idempotent_edges.
+
 (** non-vacuity: a concrete pair of sets over a 2-variable domain *)
 Import ListNotations.
 Definition ex_a : dd := N 2 [N 1 [T 0%Z; T 1%Z]; T 1%Z].
